@@ -250,7 +250,10 @@ def run_case(case):
                 # record, anything in between), it lies between the two records that bracket t_k, component by component
                 lo_r, hi_r, interp = tau_brackets(X, T, grid)
                 tol = 1e-9 * (1.0 + np.abs(X).max())
-                if np.any(rows < lo_r - tol) or np.any(rows > hi_r + tol):
+                if len(T) > 1 and not np.all(np.diff(T) > 0):
+                    # recorded times that repeat (known finding C04-tau-below-ulp): interpolation at a repeated time is ambiguous
+                    tags.append("path_with_repeated_times(C04 finding)")
+                elif np.any(rows < lo_r - tol) or np.any(rows > hi_r + tol):
                     k = int(np.argmax(np.any((rows < lo_r - tol) | (rows > hi_r + tol), axis=1)))
                     viol.append({"what": "a gridded tau-leap row is not between the records of the underlying path that bracket its time", "signature": sig("row-bracket"),
                                  "detail": "row %d (t=%r) = %s, bracketing records min %s max %s" % (k, grid[k], rows[k].tolist(), lo_r[k].tolist(), hi_r[k].tolist()) + here})
